@@ -1,9 +1,9 @@
 //@ assume: TcpStream, BytesMut/Bytes (a byte queue: len, reserve, put_u8, truncate, split_to, advance, freeze), BufReader, MsgHeaderWrapper::read (decided on the real code by Kani in C19/msg_header), decode_message, UntrustedBlockHeader decoding, Instant and AttachmentMeta are abstract; Codec keeps its real fields; State is the real enum (extracted)
-//@ assume: T6 rewrites: `self.stream.read_exact(&mut self.buffer[pre_len..])` => helper read_exact_into(stream, buffer, pre_len) (fills buffer[pre_len..] or fails); `for _ in 0..to_read { self.buffer.put_u8(0); }` kept (range loop with invariant); `h.msg_type == Type::Headers` => helper is_headers; `reader.body()?` with the inferred type UntrustedBlockHeader => reader.body_untrusted_header()?; `header.into()` => helper; `e.into()` => helper io error conversion; `now.elapsed().as_secs()` / `Instant::now()` => helpers; `self.bytes_read += to_read` => helper add (overflow of the per-call byte counter NOT decided: it is bounded by one message's length); `std::cmp::min` => local min; log macros removed
+//@ assume: T6 rewrites: `self.stream.read_exact(&mut self.buffer[pre_len..])` => helper read_exact_into(stream, buffer, pre_len, ghost idle) (fills buffer[pre_len..] or fails; REQUIRES the socket's read timeout to be the one for the current state: header timeout only between frames); set_stream_timeout is the real function (`&self` => `&mut self`: the socket's timeout is ghost state of the stream); `for _ in 0..to_read { self.buffer.put_u8(0); }` kept (range loop with invariant); `h.msg_type == Type::Headers` => helper is_headers; `reader.body()?` with the inferred type UntrustedBlockHeader => reader.body_untrusted_header()?; `header.into()` => helper; `e.into()` => helper io error conversion; `now.elapsed().as_secs()` / `Instant::now()` => helpers; `self.bytes_read += to_read` => helper add (overflow of the per-call byte counter NOT decided: it is bounded by one message's length); `std::cmp::min` => local min; log macros removed
 //@ assume: termination of the read loop is not proved (it blocks on the socket): exec_allows_no_decreases_clause
 //@ assume: decided here: Codec::read_inner (the frame state machine) (a) never underflows or indexes out of range in its length arithmetic, (b) leaves the Headers batching state only consistently: a Headers batch is returned with remaining == 0 only when the frame's announced bytes are exactly used up, a frame whose item count is exhausted while bytes remain (or whose bytes are exhausted while items remain, or whose count is 0 although body bytes follow) is refused with BadMessage and the state reset, while the EMPTY message (count 0, no body) is delivered as an empty list; a returned batch holds at most 32 headers; after a non-final batch the state still expects exactly `remaining` items; (c) an unknown message type is skipped by exactly its announced length and the state reset
 //@ assume: 64-bit target
-//@ assumed_items: 31
+//@ assumed_items: 30
 //@ fns: Codec::read_inner, Codec::next_len
 use std::sync::Arc;
 use std::mem;
@@ -18,8 +18,16 @@ pub struct MsgHeader { pub magic: [u8; 2], pub msg_type: Type, pub msg_len: u64 
 impl MsgHeader { pub const LEN: usize = 11; }
 pub enum MsgHeaderWrapper { Known(MsgHeader), Unknown(u64, u8) }
 pub enum Error { BadMessage, Io, Ser }
-#[verifier::external_body]
-pub struct TcpStream { _p: u8 }
+/// the socket's read timeout: ghost flag `body_timeout` (true = BODY_IO_TIMEOUT, false = HEADER_IO_TIMEOUT)
+pub struct TcpStream { pub body_timeout: Ghost<bool> }
+#[derive(Clone, Copy)]
+pub struct Dur { pub body: bool }
+pub const HEADER_IO_TIMEOUT: Dur = Dur { body: false };
+pub const BODY_IO_TIMEOUT: Dur = Dur { body: true };
+impl TcpStream {
+    #[verifier::external_body]
+    pub fn set_read_timeout(&mut self, t: Option<Dur>) -> (r: Result<(), Error>) ensures r.is_ok() ==> (t matches Some(d) && final(self).body_timeout@ == d.body), r.is_err() ==> final(self).body_timeout == old(self).body_timeout { unimplemented!() }
+}
 #[verifier::external_body]
 pub struct IoError { _p: u8 }
 #[verifier::external_body]
@@ -65,8 +73,10 @@ impl BytesMut {
     pub fn freeze(self) -> (r: Bytes) ensures r.blen() == self.blen() { unimplemented!() }
 }
 #[verifier::external_body]
-fn read_exact_into(stream: &mut TcpStream, buffer: &mut BytesMut, from: usize) -> (r: Result<(), IoError>)
-    requires from <= old(buffer).blen() ensures final(buffer).blen() == old(buffer).blen() { unimplemented!() }
+fn read_exact_into(stream: &mut TcpStream, buffer: &mut BytesMut, from: usize, idle: Ghost<bool>) -> (r: Result<(), IoError>)
+    requires from <= old(buffer).blen(),
+        // the read runs under the timeout that belongs to what is being read: the short header timeout only between frames, the body timeout inside a frame
+        old(stream).body_timeout@ == !idle@, ensures final(buffer).blen() == old(buffer).blen(), final(stream).body_timeout == old(stream).body_timeout { unimplemented!() }
 #[verifier::external_body]
 fn add_bytes_read(a: usize, b: usize) -> (r: usize) { unimplemented!() }
 fn min(a: usize, b: usize) -> (r: usize) ensures r == (if a <= b { a } else { b }) { if a <= b { a } else { b } }
@@ -107,8 +117,12 @@ use State::*;
 //@ end
 pub struct Codec { pub version: ProtocolVersion, pub stream: TcpStream, pub buffer: BytesMut, pub state: State, pub bytes_read: usize }
 impl Codec {
-    #[verifier::external_body]
-    fn set_stream_timeout(&self) -> (r: Result<(), Error>) { unimplemented!() }
+//@ extract p2p/src/codec.rs :: impl Codec::set_stream_timeout
+//@   sigrewrite `fn set_stream_timeout(&self)` => `fn set_stream_timeout(&mut self)`
+//@   ensures:
+//@+    final(self).state == old(self).state, final(self).buffer == old(self).buffer, final(self).bytes_read == old(self).bytes_read, final(self).version == old(self).version,
+//@+    r.is_ok() ==> final(self).stream.body_timeout@ == !(old(self).state is None),
+//@ end
 
 //@ extract p2p/src/codec.rs :: impl Codec::next_len
 //@   rewrite `if h.msg_type == Type::Headers =>` => `if is_headers(h.msg_type) =>`
@@ -123,7 +137,7 @@ impl Codec {
 //@ extract p2p/src/codec.rs :: impl Codec::read_inner
 //@   attr: #[verifier::exec_allows_no_decreases_clause]
 //@   strip_logs
-//@   rewrite `if let Err(e) = self.stream.read_exact(&mut self.buffer[pre_len..]) {` => `if let Err(e) = read_exact_into(&mut self.stream, &mut self.buffer, pre_len) {`
+//@   rewrite `if let Err(e) = self.stream.read_exact(&mut self.buffer[pre_len..]) {` => `if let Err(e) = read_exact_into(&mut self.stream, &mut self.buffer, pre_len, Ghost(self.state is None)) {`
 //@   rewrite `return Err(e.into());` => `return Err(io_err(e));`
 //@   rewrite `self.bytes_read += to_read;` => `self.bytes_read = add_bytes_read(self.bytes_read, to_read);`
 //@   rewrite `for _ in 0..to_read {` => `for k in 0..to_read {`
